@@ -43,10 +43,14 @@ def mutate(rng, s, k, alpha, indels=True):
     return "".join(s)
 
 
-def gen_config(rng, long_adapters=False, allow_force_anywhere=True):
+def gen_config(rng, long_adapters=False, allow_force_anywhere=True, very_long=0.0):
     t = rng.choice(R.TYPES)
     wild = rng.random() < 0.3
-    if long_adapters and rng.random() < (0.35 if long_adapters is True else long_adapters):
+    vl = rng.random() < very_long
+    if vl:
+        # k+1 chunks of about 64 characters: the k-mers of one search set straddle the 64-character word of the finder
+        m = rng.choice([rng.randint(126, 134), rng.randint(190, 198), rng.randint(120, 200)])
+    elif long_adapters and rng.random() < (0.35 if long_adapters is True else long_adapters):
         m = rng.choice([rng.randint(21, 40), rng.randint(58, 70), rng.randint(62, 66)])
     else:
         m = rng.randint(1, 20) if rng.random() < 0.8 else rng.randint(1, 6)
@@ -65,6 +69,9 @@ def gen_config(rng, long_adapters=False, allow_force_anywhere=True):
         rate = rng.choice(ABS_ERRORS)
     if m > 40 and rng.random() < 0.5:
         rate = rng.choice([0, 0, 0.01, 0.02, 1])   # few allowed errors: k-mers approach / exceed the 64-bit word
+    if vl:
+        rate = rng.choice([0.01, 0.011, 0.016, 0.008, 0.02])
+        wild = False
     cfg = dict(
         type=t,
         seq=seq,
